@@ -8,15 +8,15 @@ var profiles = map[string]*Profile{
 	"C01": {Name: "items", MaxDepth: 1, MaxItems: 10, PfxSfx: true, KeepFmt: true, Comments: true,
 		W: map[string]int{"text": 5, "print": 7, "comment": 2, "marker": 1}},
 	"C02": {Name: "conditions", MaxDepth: 3, MaxItems: 5, CondHist: true,
-		W: map[string]int{"text": 1, "marker": 1, "print": 1, "if": 8, "ternary": 2, "switch": 4, "ifok": 2}},
+		W: map[string]int{"text": 1, "marker": 1, "print": 1, "if": 8, "ternary": 2, "switch": 4, "ifok": 2, "ctx": 2, "dyncond": 2, "ctxcmp": 2}},
 	"C03": {Name: "loops", MaxDepth: 3, MaxItems: 4,
 		W: map[string]int{"text": 3, "marker": 2, "print": 4, "cloop": 5, "rloop": 5, "if": 1, "pastprint": 2}},
 	"C11": {Name: "letters-and-chains", MaxDepth: 1, MaxItems: 5, Letters: true, Mods: true, PfxSfx: true,
 		W: map[string]int{"text": 1, "print": 9}},
-	"C14": {Name: "loop-control", MaxDepth: 4, MaxItems: 3, BreakN: true,
-		W: map[string]int{"marker": 3, "print": 1, "cloop": 5, "rloop": 4, "if": 2, "break": 3, "lazybreak": 3, "continue": 2, "ifok": 2}},
+	"C14": {Name: "loop-control", MaxDepth: 4, MaxItems: 3, BreakN: true, Includes: true,
+		W: map[string]int{"marker": 3, "print": 1, "cloop": 5, "rloop": 4, "if": 2, "break": 3, "lazybreak": 3, "continue": 2, "ifok": 2, "include": 2}},
 	"C15": {Name: "variables", MaxDepth: 2, MaxItems: 8, Mods: true, OKFlags: true,
-		W: map[string]int{"marker": 1, "print": 4, "ctx": 5, "counter": 4, "if": 2, "cloop": 3, "rloop": 1, "dynprint": 6, "dyncond": 4, "ifok": 2, "pastprint": 2}},
+		W: map[string]int{"marker": 1, "print": 4, "ctx": 5, "counter": 4, "if": 2, "cloop": 3, "rloop": 1, "dynprint": 6, "dyncond": 4, "ifok": 2, "pastprint": 2, "ctxcmp": 1}},
 	"C16": {Name: "include-exit", MaxDepth: 3, MaxItems: 5, Includes: true, Regions: true,
 		W: map[string]int{"marker": 3, "print": 2, "include": 5, "exit": 2, "if": 2, "switch": 1, "cloop": 2, "rloop": 2, "region": 1, "ctx": 1, "ifok": 2}},
 	"C17": {Name: "all-constructs-with-faults", MaxDepth: 3, MaxItems: 4, Includes: true, Regions: true, PfxSfx: true, Letters: true, Faults: true, BreakN: true, Mods: true, Effects: true,
